@@ -832,7 +832,7 @@ pub fn generate(profile_name: &str, seed: u64) -> Program {
     }
     // now and then the loop is dropped in mid-history and a second one takes over: what the
     // program kept (dispatchers, handles) outlives the first loop and is used with the second
-    if matches!(p.name, "C16" | "C06" | "core") && g.rng.chance(1, 12) && steps.len() > 3 {
+    if matches!(p.name, "C16" | "C06" | "C05" | "core") && g.rng.chance(1, 12) && steps.len() > 3 {
         let at = g.rng.range(2, steps.len() as u64 - 1) as usize;
         steps.insert(at, Op::NewLoop);
         steps.insert(at, Op::DropLoop);
@@ -854,6 +854,16 @@ pub fn generate(profile_name: &str, seed: u64) -> Program {
     // rare long history: tens of thousands of reuses of one slot (C01 / C06)
     if (p.name == "C01" || p.name == "C06") && g.rng.chance(1, 400) {
         steps.push(Op::SlotChurn(*g.rng.pick(&[300u32, 5000, 70000])));
+        steps.push(Op::Dispatch(Timeout::Zero));
+    }
+    // ... and a timer that is armed before tens of thousands of other timers come and go and is
+    // due after them (C02 / C05: whatever identifies a timeout inside the loop is not reused
+    // while the timeout is alive)
+    if (p.name == "C02" || p.name == "C05") && g.rng.chance(1, 300) {
+        let id = g.fresh();
+        steps.push(Op::InsertTimer { id, dl: Deadline::In(g.rng.range(5, 30) * MS), keep: g.rng.chance(1, 2), script: vec![] });
+        steps.push(Op::SlotChurn(*g.rng.pick(&[5000u32, 70000, 70000, 140000])));
+        steps.push(Op::Advance(40 * MS));
         steps.push(Op::Dispatch(Timeout::Zero));
     }
     let mut env = Vec::new();
